@@ -78,11 +78,11 @@ class Run(object):
 
     # ---------------------------------------------------------------- trace validation
     def judge(self, module, traces, tables=None, shards=None, canary_ids=(), describe=None,
-              timeout=3600, cfg_extra='', replay_of=None, xmx='3g'):
+              timeout=3600, cfg_extra='', replay_of=None, xmx='3g', with_tables=True):
         """Have TLC judge traces.  canary_ids: ids of deliberately corrupted
         traces that MUST be rejected.  Returns verdicts."""
         verdicts, st = tlcrun.validate(module, traces, tables, shards=shards, timeout=timeout,
-                                       cfg_extra=cfg_extra, xmx=xmx)
+                                       cfg_extra=cfg_extra, xmx=xmx, with_tables=with_tables)
         self.states += st['distinct']
         self.transitions += st['states']
         self.cmds.extend(st['cmds'])
